@@ -146,6 +146,7 @@ def _work(args):
         for k in ks:
             # watchdog per RUN (not per chunk): a hung run kills the worker, which the parent reports as a harness error
             faulthandler.dump_traceback_later(eng.run_timeout, exit=True)
+            _note_current_run(prop, verif_seed, k)
             ss = tapemod.sub_seed(verif_seed, prop, k)
             res = run_one(eng, seed=ss)
             agg["n"] += 1
@@ -187,6 +188,42 @@ def _work(args):
     faulthandler.cancel_dump_traceback_later()
     agg["cpu_s"] = time.process_time() - t0
     return agg
+
+
+_STATUS_FD = [None]
+
+
+def _note_current_run(prop, verif_seed, k):
+    """One pwrite per run into replays/.status-<pid>: if this worker is killed by its watchdog the parent can say which
+    run it was in."""
+    try:
+        if _STATUS_FD[0] is None:
+            os.makedirs(REPLAY_DIR, exist_ok=True)
+            _STATUS_FD[0] = os.open(os.path.join(REPLAY_DIR, f".status-{os.getpid()}"), os.O_CREAT | os.O_WRONLY, 0o644)
+        os.pwrite(_STATUS_FD[0], f"{prop} VERIF_SEED={verif_seed} k={k}        \n".encode(), 0)
+    except OSError:
+        pass
+
+
+def _read_statuses():
+    out = []
+    try:
+        for name in sorted(os.listdir(REPLAY_DIR)):
+            if name.startswith(".status-"):
+                with open(os.path.join(REPLAY_DIR, name)) as f:
+                    out.append(f"pid {name[8:]}: {f.read().strip()}")
+    except OSError:
+        pass
+    return out
+
+
+def _clear_statuses():
+    try:
+        for name in os.listdir(REPLAY_DIR):
+            if name.startswith(".status-"):
+                os.remove(os.path.join(REPLAY_DIR, name))
+    except OSError:
+        pass
 
 
 def _pin(counter):
@@ -267,6 +304,7 @@ def main_check(engine, tier, verif_seed, wall_cap=None, workers=None):
     t_prepare = time.time() - t0
     _set_engine(engine)
 
+    _clear_statuses()
     ctx = multiprocessing.get_context("fork")
     counter = ctx.Value("i", 0)
     pool = cf.ProcessPoolExecutor(max_workers=workers, mp_context=ctx, initializer=_pin, initargs=(counter,))
@@ -334,7 +372,8 @@ def main_check(engine, tier, verif_seed, wall_cap=None, workers=None):
             submit_more()
         st = st_future.result(timeout=engine.run_timeout + 60) if st_future else None
     except cf.process.BrokenProcessPool as e:
-        harness_exit(f"{prop}: worker died ({e}); see stderr for faulthandler output")
+        harness_exit(f"{prop}: worker died ({e}); see stderr for faulthandler output; runs in progress per worker: "
+                     f"{_read_statuses()}")
     except cf.TimeoutError:
         harness_exit(f"{prop}: worker timeout")
     batch_wall = time.time() - t_batch
@@ -498,6 +537,7 @@ def main_check(engine, tier, verif_seed, wall_cap=None, workers=None):
     zero = [k for k in getattr(engine, "expected_probes", lambda t: [])(tier) if not total["stats"].get(k)]
     if zero:
         print(f"[{prop}] NOTE probes stuck at zero: {zero}")
+    _clear_statuses()
     if reported:
         sys.exit(1)
     fatal = {k: total["stats"][k] for k in getattr(engine, "fatal_stats", []) if total["stats"].get(k)}
